@@ -203,11 +203,20 @@ def replay(ob):
 
     w = ob.witness or {}
     if "preset" in w:
+        last = None
+        for Z in [w["Z"]] + [z for z in range(len(vdw_radii)) if z != w["Z"]]:
+            try:
+                got = float(g.get_radii(w["preset"], np.array([Z]))[0])
+            except Exception as e:  # noqa
+                return {"reproduced": True, "call": "get_radii(%r, [%d])" % (w["preset"], Z), "observed": "%s: %s" % (type(e).__name__, e)}
+            want = {"covalent": lambda: covalent_radii[Z], "vdw": lambda: vdw_radii[Z],
+                    "vdw_covalent": lambda: vdw_radii[Z] if not np.isnan(vdw_radii[Z]) else covalent_radii[Z]}[w["preset"]]()
+            last = {"reproduced": not _same(got, float(want)), "call": "get_radii(%r, [%d])" % (w["preset"], Z), "got": got, "documented": float(want)}
+            if last["reproduced"]:
+                return last
+        return last
         Z = w["Z"]
-        try:
-            got = float(g.get_radii(w["preset"], np.array([Z]))[0])
-        except Exception as e:  # noqa
-            return {"reproduced": True, "call": "get_radii(%r, [%d])" % (w["preset"], Z), "observed": "%s: %s" % (type(e).__name__, e)}
+        got = float(g.get_radii(w["preset"], np.array([Z]))[0])
         want = {"covalent": lambda: covalent_radii[Z], "vdw": lambda: vdw_radii[Z],
                 "vdw_covalent": lambda: vdw_radii[Z] if not np.isnan(vdw_radii[Z]) else covalent_radii[Z]}[w["preset"]]()
         return {"reproduced": not _same(got, float(want)), "call": "get_radii(%r, [%d])" % (w["preset"], Z), "got": got, "documented": float(want)}
